@@ -37,6 +37,7 @@ impl Default for Sender {
 /// `server_addr`, `server` the matching entry for `client_addr`; each entry's stateless reset
 /// tag is the other map's signer applied to the credential id. Thin wrapper around the
 /// crate-private `Map::test_insert_pair`.
+#[cfg(any(test, feature = "testing"))]
 pub fn insert_pair(
     client: &super::Map,
     client_addr: std::net::SocketAddr,
